@@ -8,6 +8,10 @@ the input cell, in exact rational arithmetic:
   found by `SiteIndex.find` within `4·symprec`;
 * `Stab` = number of tabulated conventional operations `g` (centring included) of the *reported*
   Hall number with `g·s ≡ s` modulo the lattice within `1e-6` (Cartesian, periodic, exact);
+* (W0) orbit labels against the tabulated operations, independently of the generator: the std_cell
+  site of every atom is the image of the site of its label atom under a tabulated operation, and the
+  species agree (W0a); the sites of two different label atoms of one species are related by no
+  tabulated operation (W0b);
 * (W1) tabulated multiplicity of the reported letter × `Stab` = number of conventional operations;
 * (W2) the point group named by the reported site-symmetry symbol has order `Stab`, and the symbol
   is the tabulated symbol of the letter;
@@ -129,61 +133,134 @@ def orbitOnSubspace (d : DatasetQ) (cen : Centering) (sites : List (Option Nat))
     | none => false
     | some j => (centeringShifts cen).any fun c => onSubspace S.lat gi sp (S.pos[j]!.add c) r2
 
-def checkC07wyckoff (cs : CaseQ) (d : DatasetQ) : List String :=
+/-- std_cell sites onto which the operations carry site `j` (exact search within `tinyEps2`). -/
+def siteImages (d : DatasetQ) (ops : List HOp) (j : Nat) : List Nat :=
+  let S := d.stdCell
+  let ixS := SiteIndex.build S
+  ops.filterMap fun g => ixS.find ((g.rot.applyQ S.pos[j]!).add (g.trans.toQ 12)) S.num[j]! tinyEps2
+
+/-- Number of conventional operations of a Hall number (0 if it has none). -/
+def nopsOfHall (h : Nat) : Nat :=
+  match convOps h with
+  | some g => g.length
+  | none => 0
+
+/-- Everything the per-atom clauses need, computed once per dataset. -/
+structure WCtx where
+  h : Nat
+  ops : List HOp
+  cen : Centering
+  r2 : Rat
+  /-- landing std_cell site of each input atom -/
+  sites : List (Option Nat)
+  /-- stabilizer order per std_cell site (0 = not landed on) -/
+  stabs : List Nat
+  /-- number of conventional operations of the generating Hall number -/
+  nopsGen : Nat
+  /-- (W3) verdict per orbit label (`true` for indices that are not labels) -/
+  subOk : List Bool
+  /-- (W0a) per orbit label: the std_cell sites equivalent to the label's site (`[]` for non-labels) -/
+  reach : List (List Nat)
+
+def WCtx.build (cs : CaseQ) (d : DatasetQ) (ops : List HOp) (cen : Centering) : WCtx :=
   let n := cs.cell.n
-  if !(d.orbits.size == n && d.wyck.size == n && d.siteSym.size == n) then [] else  -- reported by checkC07orbits
   let h := d.hallNumber.toNat
-  match convOps h, centeringOfHall h with
-  | some ops, some cen =>
-    let nops := ops.length
-    let r := 4 * d.symprec
-    let r2 := r * r
-    let sites := landingSites cs d r2
-    let stabs := siteStabilizers d ops sites
-    let nopsGen : Nat := match convOps cs.truth.hall with
-      | some g => g.length
-      | none => 0
-    -- (W3) once per orbit label
-    let subOk : List Bool := (List.range n).map fun l =>
+  let r := 4 * d.symprec
+  let r2 := r * r
+  let sites := landingSites cs d r2
+  { h := h, ops := ops, cen := cen, r2 := r2, sites := sites,
+    stabs := siteStabilizers d ops sites,
+    nopsGen := nopsOfHall cs.truth.hall,
+    subOk := (List.range n).map fun l =>
       if d.orbits[l]! == l then
         match (rowOfLetter? h d.wyck[l]!).bind fun row => Space.new? row.coordinates with
         | some sp => orbitOnSubspace d cen sites sp l r2
         | none => false
-      else true
-    let fails := (List.range n).filterMap fun i =>
-      match sites[i]! with
-      | none => some s!"C07: input atom {i} lands on no std_cell site of its species within 4*symprec"
-      | some j =>
-        let st := stabs[j]!
-        match rowOfLetter? h d.wyck[i]! with
-        | none => some s!"C07: atom {i}: letter {d.wyck[i]!} is not tabulated for Hall {h}"
-        | some row =>
-          if !(row.multiplicity * st == nops) then
-            some s!"C07: atom {i}: letter {d.wyck[i]!} has tabulated multiplicity {row.multiplicity} but the stabilizer of its std_cell site has order {st} ({nops} operations)"
-          else match siteSymmetryOrder? d.siteSym[i]! with
-          | none => some s!"C07: atom {i}: unknown site-symmetry symbol {d.siteSym[i]!}"
-          | some k =>
-            if !(k == st) then
-              some s!"C07: atom {i}: site-symmetry symbol {d.siteSym[i]!} names a group of order {k}, the stabilizer has order {st}"
-            else if !(d.siteSym[i]! == row.siteSymmetry) then
-              some s!"C07: atom {i}: site-symmetry symbol {d.siteSym[i]!} is not the tabulated symbol {row.siteSymmetry} of letter {d.wyck[i]!}"
-            else
-              let l := d.orbits[i]!
-              if !(decide (l < n) && d.orbits[l]! == l && d.wyck[l]! == d.wyck[i]! && subOk[l]!) then
-                some s!"C07: atom {i}: no atom of its orbit lies on the tabulated coordinate subspace '{row.coordinates}' of letter {d.wyck[i]!} (Hall {h})"
-              else
-                let t := cs.truth.wyck[i]!
-                if t < 0 then none else
-                match wyckoffTable[t.toNat]? with
-                | none => some s!"C07: atom {i}: recorded Wyckoff row {t} does not exist"
-                | some trow =>
-                  if !(trow.hallNumber == cs.truth.hall) then some s!"C07: atom {i}: recorded Wyckoff row {t} belongs to Hall {trow.hallNumber}, generated in Hall {cs.truth.hall}"
-                  else if !(row.multiplicity * nopsGen == trow.multiplicity * nops) then
-                    some s!"C07: atom {i}: generated on position {trow.multiplicity}{trow.letter} of Hall {trow.hallNumber} ({nopsGen} operations) but reported as {row.multiplicity}{d.wyck[i]!} of Hall {h} ({nops} operations)"
-                  else if !(siteSymmetryOrder? trow.siteSymmetry == some k) then
-                    some s!"C07: atom {i}: generated with site symmetry {trow.siteSymmetry}, reported {d.siteSym[i]!}"
-                  else none
-    cap fails 3
-  | _, _ => [s!"C07: Hall number {h} has no tabulated operations"]
+      else true,
+    reach := (List.range n).map fun l =>
+      if d.orbits[l]! == l then
+        match sites[l]! with
+        | some j => siteImages d ops j
+        | none => []
+      else [] }
+
+/-- (W4) agreement with the generator's recorded Wyckoff row `t` (`t < 0`: nothing recorded). -/
+def truthOk (cs : CaseQ) (c : WCtx) (row : WyckoffEntry) (k : Nat) (t : Int) : Bool :=
+  if t < 0 then true else
+  match wyckoffTable[t.toNat]? with
+  | none => false
+  | some trow =>
+    trow.hallNumber == cs.truth.hall &&
+    row.multiplicity * c.nopsGen == trow.multiplicity * c.ops.length &&
+    siteSymmetryOrder? trow.siteSymmetry == some k
+
+/-- All per-atom clauses (W0a, W1–W4) for input atom `i`. -/
+def atomOk (cs : CaseQ) (d : DatasetQ) (c : WCtx) (i : Nat) : Bool :=
+  let l := d.orbits[i]!
+  match c.sites[i]!, rowOfLetter? c.h d.wyck[i]!, siteSymmetryOrder? d.siteSym[i]! with
+  | some j, some row, some k =>
+    row.multiplicity * c.stabs[j]! == c.ops.length &&
+    k == c.stabs[j]! &&
+    d.siteSym[i]! == row.siteSymmetry &&
+    (decide (l < cs.cell.n) && d.orbits[l]! == l && d.wyck[l]! == d.wyck[i]! && c.subOk[l]!) &&
+    (cs.cell.num[l]! == cs.cell.num[i]! && (c.reach[l]!).contains j) &&
+    truthOk cs c row k cs.truth.wyck[i]!
+  | _, _, _ => false
+
+/-- (W0b) two different orbit labels of the same species are not related by any operation. -/
+def labelsSeparated (cs : CaseQ) (d : DatasetQ) (c : WCtx) : Bool :=
+  let S := d.stdCell
+  let gi := ginvDiag S.lat
+  let n := cs.cell.n
+  (List.range n).all fun l1 => (List.range n).all fun l2 =>
+    !(decide (l1 < l2) && d.orbits[l1]! == l1 && d.orbits[l2]! == l2 && cs.cell.num[l1]! == cs.cell.num[l2]!) ||
+    match c.sites[l1]!, c.sites[l2]! with
+    | some j1, some j2 =>
+      c.ops.all fun g => !(withinPeriodic S.lat gi (((g.rot.applyQ S.pos[j1]!).add (g.trans.toQ 12)).sub S.pos[j2]!) tinyEps2)
+    | _, _ => false
+
+/-- Message for a failing atom (diagnosis only; the verdict is `atomOk`). -/
+def describeAtom (cs : CaseQ) (d : DatasetQ) (c : WCtx) (i : Nat) : String :=
+  let h := c.h
+  let nops := c.ops.length
+  match c.sites[i]! with
+  | none => s!"C07: input atom {i} lands on no std_cell site of its species within 4*symprec"
+  | some j =>
+    let st := c.stabs[j]!
+    match rowOfLetter? h d.wyck[i]! with
+    | none => s!"C07: atom {i}: letter {d.wyck[i]!} is not tabulated for Hall {h}"
+    | some row =>
+      if !(row.multiplicity * st == nops) then
+        s!"C07: atom {i}: letter {d.wyck[i]!} has tabulated multiplicity {row.multiplicity} but the stabilizer of its std_cell site has order {st} ({nops} operations)"
+      else match siteSymmetryOrder? d.siteSym[i]! with
+      | none => s!"C07: atom {i}: unknown site-symmetry symbol {d.siteSym[i]!}"
+      | some k =>
+        let l := d.orbits[i]!
+        if !(k == st) then
+          s!"C07: atom {i}: site-symmetry symbol {d.siteSym[i]!} names a group of order {k}, the stabilizer has order {st}"
+        else if !(d.siteSym[i]! == row.siteSymmetry) then
+          s!"C07: atom {i}: site-symmetry symbol {d.siteSym[i]!} is not the tabulated symbol {row.siteSymmetry} of letter {d.wyck[i]!}"
+        else if !(decide (l < cs.cell.n) && d.orbits[l]! == l && d.wyck[l]! == d.wyck[i]! && c.subOk[l]!) then
+          s!"C07: atom {i}: no atom of its orbit lies on the tabulated coordinate subspace '{row.coordinates}' of letter {d.wyck[i]!} (Hall {h})"
+        else if !(cs.cell.num[l]! == cs.cell.num[i]! && (c.reach[l]!).contains j) then
+          s!"C07: atom {i} carries orbit label {l} but no tabulated operation of Hall {h} maps the std_cell site of atom {l} onto its site (or the species differ)"
+        else
+          let t := cs.truth.wyck[i]!
+          match wyckoffTable[t.toNat]? with
+          | none => s!"C07: atom {i}: recorded Wyckoff row {t} does not exist"
+          | some trow =>
+            s!"C07: atom {i}: generated on position {trow.multiplicity}{trow.letter} ({trow.siteSymmetry}) of Hall {trow.hallNumber} ({c.nopsGen} operations; generating Hall {cs.truth.hall}) but reported as {row.multiplicity}{d.wyck[i]!} ({d.siteSym[i]!}) of Hall {h} ({nops} operations)"
+
+def checkC07wyckoff (cs : CaseQ) (d : DatasetQ) : List String :=
+  let n := cs.cell.n
+  if !(d.orbits.size == n && d.wyck.size == n && d.siteSym.size == n) then [] else  -- reported by checkC07orbits
+  match convOps d.hallNumber.toNat, centeringOfHall d.hallNumber.toNat with
+  | some ops, some cen =>
+    let c := WCtx.build cs d ops cen
+    let f1 := (List.range n).filterMap fun i => if atomOk cs d c i then none else some (describeAtom cs d c i)
+    let f2 := if labelsSeparated cs d c then [] else
+      ["C07: two atoms with different orbit labels and the same species are related by a tabulated operation in std_cell"]
+    cap (f1 ++ f2) 3
+  | _, _ => [s!"C07: Hall number {d.hallNumber} has no tabulated operations"]
 
 end Moyo.Oracle
